@@ -60,9 +60,9 @@ def hints(n):
 
 def run_shard(sh, rec):
     if sh[0] == "wt":
-        _, fam, first = sh
+        _, fam, first, part, parts = sh
         n, types, K, W = s2r.families(TIER_ACTIVE)[fam]
-        gen = s2r.weighted_profiles(types, K, W, first)
+        gen = s2r.weighted_profiles(types, K, W, first, part, parts)
         B, maxB, weighted = None, None, True
         alpha = list(R.rankings(n)) + [None]
     else:
